@@ -61,6 +61,20 @@ def _small_heralded(photons=0):
     return u
 
 
+def _heralded_with_bad_parameter(loss=False):
+    import lightworks as lw
+    p = lw.Parameter(0.5)
+    u = lw.Circuit(3)
+    if loss:
+        u.bs(0, loss=p)
+    else:
+        u.bs(0, reflectivity=p)
+    u.bs(1)
+    u.herald(0, 0, 2)
+    p.set(1.5)
+    return u
+
+
 def rejected_calls(c):
     """(label, callable, expected exception names)"""
     import lightworks as lw
@@ -109,6 +123,10 @@ def rejected_calls(c):
         ("add heralded, mode out of range", lambda: c.add(_small_heralded(), n), ("ModeRangeError",)),
         ("add heralded, negative mode", lambda: c.add(_small_heralded(), -1), ("ModeRangeError",)),
         ("add heralded, float mode", lambda: c.add(_small_heralded(), 0.5), ("TypeError",)),
+        # arguments that are accepted today (their parameter values are only looked at when the circuit is compiled): if a version of add() refuses them, the
+        # refusal must still leave the parent as it was
+        ("add heralded block holding an out-of-range reflectivity Parameter", lambda: c.add(_heralded_with_bad_parameter(), 0), ("ValueError", "CircuitCompilationError", "optional")),
+        ("add grouped block holding an out-of-range loss Parameter", lambda: c.add(_heralded_with_bad_parameter(loss=True), 0, group=True), ("ValueError", "CircuitCompilationError", "optional")),
         ("add heralded, does not fit at offset", lambda: c.add(_small_heralded(), n - 1) if n >= 2 else c.add(_small_heralded(), n), ("ModeRangeError",)),
         ("plus different size", lambda: c + big, ("ModeRangeError", "NotImplementedError")),
         ("plus wrong type", lambda: c + 1, ("TypeError",)),
@@ -243,6 +261,49 @@ def check_arguments():
     s.bs(1)
     if snap(a) != sa or snap(b) != sb:
         fails.append((dict(op="+"), "summing circuits changed an operand"))
+    # copies and sums made EARLIER are independent of what is done to the original LATER (and the other way round) - also when the later operation is one
+    # that re-indexes existing components: a heralded sub-circuit added at or below them, swap compression, unpacking
+    def heralded_block():
+        h = lw.Unitary(lw.random_unitary(3, seed=21))
+        h.herald(1, 0, 2)
+        return h
+    later_ops = [("add heralded block at 0", lambda c: c.add(heralded_block(), 0)), ("add heralded block at 1", lambda c: c.add(heralded_block(), 1)),
+                 ("compress_mode_swaps", lambda c: c.compress_mode_swaps()), ("remove_non_adjacent_bs", lambda c: c.remove_non_adjacent_bs()),
+                 ("unpack_groups", lambda c: c.unpack_groups()), ("herald(0, 0)", lambda c: c.herald(0, 0))]
+
+    def original():
+        c = lw.Circuit(4)
+        c.bs(0, 2)
+        c.mode_swaps({1: 3, 3: 1})
+        c.mode_swaps({0: 1, 1: 0})
+        g = lw.Circuit(2)
+        g.ps(1, 0.4)
+        c.add(g, 2, group=True)
+        c.add(lw.Unitary(lw.random_unitary(2, seed=8)), 1)
+        return c
+    for olabel, op in later_ops:
+        for who in ("copy edited, original watched", "original edited, copy watched", "sum edited, operand watched", "operand edited, sum watched"):
+            n += 1
+            o1 = original()
+            if who.startswith("copy") or who.startswith("original"):
+                other = o1.copy()
+                edited, watched = (other, o1) if who.startswith("copy") else (o1, other)
+            else:
+                o2 = lw.Circuit(4)
+                o2.ps(3, 1.0)
+                tot = o1 + o2
+                edited, watched = (tot, o1) if who.startswith("sum") else (o1, tot)
+            before = snap(watched)
+            try:
+                op(edited)
+            except Exception:  # noqa: BLE001
+                continue
+            try:
+                after = snap(watched)
+            except Exception as e:  # noqa: BLE001
+                after = f"snapshot raised {type(e).__name__}"
+            if after != before:
+                fails.append((dict(later_operation=olabel, case=who), "a circuit changed although only its copy / sum partner was operated on"))
     # emulator / interferometer / display / tomography / converter
     for plabel, _ in parents():
         c = next(p for l, p in parents() if l == plabel)
